@@ -24,6 +24,13 @@ from ufl.protocols import id_or_none
 __all_classes__ = ["Integral"]
 
 
+def _with_sorted_keys(metadata):
+    """Return metadata with the keys of (nested) dicts in sorted order."""
+    if isinstance(metadata, dict):
+        return {k: _with_sorted_keys(metadata[k]) for k in sorted(metadata, key=repr)}
+    return metadata
+
+
 class Integral:
     """An integral over a single domain."""
 
@@ -181,9 +188,12 @@ class Integral:
 
     def __repr__(self):
         """Representation."""
+        # Equal integrals must print identically, and dict equality ignores
+        # the insertion order of the keys
+        metadata = _with_sorted_keys(self._metadata)
         return (
             f"Integral({self._integrand!r}, {self._integral_type!r}, {self._ufl_domain!r}, "
-            f"{self._subdomain_id!r}, {self._metadata!r}, {self._subdomain_data!r}, "
+            f"{self._subdomain_id!r}, {metadata!r}, {self._subdomain_data!r}, "
             f"extra_domain_integral_type_map={self._extra_domain_integral_type_map!r})"
         )
 
